@@ -6,6 +6,7 @@
     Bytes are [N].  No floats: a real is its sign and its absolute value in millionths,
     i.e. exactly what [format!("{:.6}")] prints (computed by the harness with that very call). *)
 From OxVerif Require Import Base.Util.
+From OxVerif Require C21.Tok.      (* only [Tok.utf8_valid]: String::from_utf8 succeeds (C21's model, tied by C21's correspondence) *)
 
 (** * Source values (oxidize_pdf::objects::Object, streams not modelled) *)
 Inductive obj :=
@@ -690,18 +691,44 @@ Fixpoint wf_gen (nok : bytes -> bool) (v : obj) : bool :=
 Definition wf : obj -> bool := wf_gen bytes_ok.
 Definition wf_pinned : obj -> bool := wf_gen regular_name.
 
-(** The reader builds a name String from one char per byte (Latin-1 view); the String's own
-    UTF-8 form is [l1_utf8] of those bytes.  [strview] re-expresses every name of a parsed value
-    that way, so that it can be compared with the source names (UTF-8 of the source Strings):
-    the identity on ASCII names, and the remaining finding C09-name-nonascii otherwise. *)
+(** parser/lexer.rs read_name AFTER fix_name_utf8: the decoded name bytes [n] become the name String
+    through String::from_utf8 when they are valid UTF-8 (the String's UTF-8 form is then [n] itself);
+    only bytes that are NOT valid UTF-8 keep the old one-char-per-byte (Latin-1) view, whose own UTF-8
+    form is [l1_utf8 n].  [name_string n] = the UTF-8 bytes of the Rust String the reader returns.
+    [Tok.utf8_valid] (C21) is exactly str::from_utf8's acceptance: lead bytes C2..DF / E0..EF / F0..F4
+    only, E0 needs A0..BF (no overlongs), ED needs 80..9F (no surrogates), F0 needs 90..BF,
+    F4 needs 80..8F (nothing above U+10FFFF), truncated sequences rejected.
+    [strview] re-expresses every name of a parsed value (names = decoded bytes, which is what [lex1] /
+    [parse] carry) as those Strings, so that it can be compared with the source names (UTF-8 of the
+    source Strings).  The parser itself looks at a name String only to compare it with "R"
+    ([name_string n] = "R" iff [n] = "R") and to insert it as a HashMap key (hence [canon] AFTER
+    [strview]: the bytes E9 and C3 A9 are one key). *)
 Definition l1_utf8 (n : bytes) : bytes :=
   flat_map (fun c => if c <? 128 then [c] else [192 + c / 64; 128 + c mod 64]) n.
+Definition name_string (n : bytes) : bytes := if Tok.utf8_valid n then n else l1_utf8 n.
 Fixpoint strview (p : pobj) : pobj :=
   match p with
-  | PName n => PName (l1_utf8 n)
+  | PName n => PName (name_string n)
   | PArr l => PArr (map strview l)
-  | PDict l => PDict (map (fun '(k, x) => (l1_utf8 k, strview x)) l)
+  | PDict l => PDict (map (fun '(k, x) => (name_string k, strview x)) l)
   | _ => p
+  end.
+(** the reader BEFORE fix_name_utf8 (always the Latin-1 view): kept only for the record lemmas named
+    [..._pinned] (former findings C09-name-nonascii, C30-name-nonascii, C09-incr-nonascii-name) *)
+Fixpoint strview_pinned (p : pobj) : pobj :=
+  match p with
+  | PName n => PName (l1_utf8 n)
+  | PArr l => PArr (map strview_pinned l)
+  | PDict l => PDict (map (fun '(k, x) => (l1_utf8 k, strview_pinned x)) l)
+  | _ => p
+  end.
+(** every Rust String is valid UTF-8: the source values that exist *)
+Fixpoint utf8_names (v : obj) : bool :=
+  match v with
+  | OName n => Tok.utf8_valid n
+  | OArr l => forallb utf8_names l
+  | ODict l => forallb (fun kv => Tok.utf8_valid (fst kv) && utf8_names (snd kv)) l
+  | _ => true
   end.
 Definition ascii_name (n : bytes) : bool := forallb (fun c => c <? 128) n.
 Fixpoint ascii_names (v : obj) : bool :=
@@ -713,14 +740,18 @@ Fixpoint ascii_names (v : obj) : bool :=
   end.
 
 (** * Correspondence checkers *)
+(** In every channel the harness transports a parsed name as the UTF-8 bytes of the Rust String
+    the library returned (chars may exceed U+00FF since fix_name_utf8); the model's parse result is
+    brought to the same view by [strview] before [canon]. *)
+Definition parse_strings (bs : bytes) : option pobj := option_map (fun p => canon (strview p)) (parse bs).
 (** channel ser: (which serializer is irrelevant: both Rust functions are run and must agree)
     case = (source value, bytes the writer produced, what PdfObject::parse returned on them) *)
 Definition ser_case := (obj * bytes * option pobj)%type.
 Definition ser_code (c : ser_case) : N :=
   let '(v, impl_bytes, impl_parsed) := c in
   let model_ok := bytes_eqb (ser esc_iso v) impl_bytes
-                  && opobj_eqb (option_map canon (parse impl_bytes)) impl_parsed in
-  let prop_ok := opobj_eqb (Some (canon (norm v))) (option_map (fun p => canon (strview p)) impl_parsed) in
+                  && opobj_eqb (parse_strings impl_bytes) impl_parsed in
+  let prop_ok := opobj_eqb (Some (canon (norm v))) (option_map canon impl_parsed) in
   code_of model_ok prop_ok.
 
 (** channel lex: arbitrary token text -> what PdfObject::parse returned (model only; the
@@ -728,25 +759,28 @@ Definition ser_code (c : ser_case) : N :=
 Definition lex_case := (bytes * option pobj)%type.
 Definition lex_code (c : lex_case) : N :=
   let '(bs, impl_parsed) := c in
-  code_of (opobj_eqb (option_map canon (parse bs)) impl_parsed) true.
+  code_of (opobj_eqb (parse_strings bs) impl_parsed) true.
 
 (** channel incr: incremental writer (names #XX-escaped, strings hex) *)
-(** a parsed name is a String of chars <= 0xFF (Latin-1 view of the file's bytes); the
-    incremental writer escapes the bytes of its UTF-8 form *)
+(** a parsed name is a Rust String (any chars since fix_name_utf8); a source name [n] is its UTF-8
+    form, and the incremental writer escapes exactly those bytes *)
 Fixpoint ser_incr (v : obj) : bytes :=
   match v with
-  | OName n => 47 :: esc_name (l1_utf8 n)
+  | OName n => 47 :: esc_name n
   | OStr s | OHex s => 60 :: ser_hex s ++ [62]
   | OArr l => 91 :: ser_elems ser_incr l ++ [93]
   | ODict l => 60 :: 60 :: 32 ::
-               flat_map (fun kv => 47 :: esc_name (l1_utf8 (fst kv)) ++ 32 :: snd kv ++ [32])
+               flat_map (fun kv => 47 :: esc_name (fst kv) ++ 32 :: snd kv ++ [32])
                         (sort_kv (map (fun '(k, x) => (k, ser_incr x)) l)) ++ [62; 62]
   | OReal _ _ => []       (* shortest-round-trip reals: not modelled, not generated *)
   | _ => ser raw_name v
   end.
+(** the harness of the time before fix_name_utf8 handed a source name over as its Latin-1 bytes
+    (chars <= U+00FF); the writer escaped the UTF-8 form of that String: record only *)
+Definition ser_incr_name_pinned (n : bytes) : bytes := 47 :: esc_name (l1_utf8 n).
 Definition incr_code (c : ser_case) : N :=
   let '(v, impl_bytes, impl_parsed) := c in
   let model_ok := bytes_eqb (ser_incr v) impl_bytes
-                  && opobj_eqb (option_map canon (parse impl_bytes)) impl_parsed in
+                  && opobj_eqb (parse_strings impl_bytes) impl_parsed in
   let prop_ok := opobj_eqb (Some (canon (norm v))) impl_parsed in
   code_of model_ok prop_ok.
